@@ -9,6 +9,7 @@ Authors: Daniel Nagel
 
 """
 import numba
+import numpy as np
 
 from msmhelper.statetraj import LumpedStateTraj, StateTraj
 
@@ -71,6 +72,11 @@ def dynamical_coring(trajs, lagtime, iterative=True):
 
     if lagtime <= 0:
         raise ValueError('The lagtime should be greater 0.')
+
+    # NumPy integers narrower than 64 bit cannot be unified with the window
+    # lengths of the compiled kernel, which are platform integers
+    if isinstance(lagtime, np.integer):
+        lagtime = int(lagtime)
 
     # if lagtime == 1 nothing changes
     if lagtime == 1:
